@@ -765,7 +765,13 @@ func returnPaths(fn *ssa.Function) []retPath {
 	var out []retPath
 	for _, b := range fn.Blocks {
 		if ret, ok := b.Instrs[len(b.Instrs)-1].(*ssa.Return); ok {
-			for _, p := range splitPaths(append([]ssa.Value{}, ret.Results...), b) {
+			// a function with defer hands its results through result variables (`*r = v; rundefers; return
+			// *r`): what is returned is what was just stored
+			vals := append([]ssa.Value{}, ret.Results...)
+			for i := range vals {
+				vals[i] = resolveSpill(vals[i])
+			}
+			for _, p := range splitPaths(vals, b) {
 				p.ret = ret
 				out = append(out, p)
 			}
@@ -789,7 +795,7 @@ func splitPaths(vals []ssa.Value, at *ssa.BasicBlock) []retPath {
 				}
 			}
 		}
-		if depth >= 5 {
+		if depth >= 9 {
 			out = append(out, retPath{ret, vals, from, edgeTo})
 			return
 		}
